@@ -343,6 +343,31 @@ func (x *qtrans) assign(s *ast.AssignStmt, en qenv, fc *qfctx, next qkont) strin
 	return done(cur)
 }
 
+// droppedFieldReset: `v.f = nil` where f is a field of a dropped type of an object variable v
+func (x *qtrans) droppedFieldReset(s *ast.AssignStmt, en qenv) bool {
+	if s.Tok != token.ASSIGN || len(s.Lhs) != 1 || len(s.Rhs) != 1 || !isIdent(s.Rhs[0], "nil") {
+		return false
+	}
+	sel, ok := s.Lhs[0].(*ast.SelectorExpr)
+	if !ok {
+		return false
+	}
+	id, ok := sel.X.(*ast.Ident)
+	if !ok {
+		return false
+	}
+	v := en.lookup(id.Name)
+	if v == nil {
+		return false
+	}
+	bi := x.ti(v.typ)
+	if bi.Kind != "obj" {
+		return false
+	}
+	ft, ok := x.u.fieldType(bi.Struct, sel.Sel.Name)
+	return ok && x.u.typeInfo(ft, nil).Kind == "drop"
+}
+
 // ---------------------------------------------------------------------------------------------
 // statements
 
@@ -356,6 +381,10 @@ func (x *qtrans) stmts(list []ast.Stmt, en qenv, fc *qfctx, k qkont) string {
 	done := func(en2 qenv) string {
 		en2 = x.endStmt(en2)
 		return x.withPre(p0, fc.pnc, next(en2))
+	}
+	switch s.(type) {
+	case *ast.AssignStmt, *ast.ExprStmt, *ast.IncDecStmt, *ast.ReturnStmt, *ast.DeclStmt:
+		x.curEnd = s.End()
 	}
 	switch s := s.(type) {
 	case *ast.EmptyStmt:
@@ -408,6 +437,10 @@ func (x *qtrans) stmts(list []ast.Stmt, en qenv, fc *qfctx, k qkont) string {
 		}, nil, en)
 		return done(en2)
 	case *ast.AssignStmt:
+		if x.droppedFieldReset(s, en) {
+			// `a.f = nil` for a field that is not part of the record (dropped type: the nesting machinery): not modelled
+			return next(en)
+		}
 		return x.assign(s, en, fc, next)
 	case *ast.ExprStmt:
 		c, ok := s.X.(*ast.CallExpr)
@@ -582,6 +615,7 @@ func (x *qtrans) ifStmt(s *ast.IfStmt, en qenv, fc *qfctx, next qkont) string {
 type qsnap struct {
 	nloop, ntmp, naux, npre  int
 	rebound, mutParam, consP map[string]bool
+	nonSet                   map[string]bool
 	needPnc                  bool
 }
 
@@ -594,12 +628,12 @@ func qcopy(m map[string]bool) map[string]bool {
 }
 
 func (x *qtrans) snapshot() qsnap {
-	return qsnap{x.nloop, x.ntmp, len(x.aux), len(x.pre), qcopy(x.rebound), qcopy(x.mutParam), qcopy(x.consumeP), x.needPnc}
+	return qsnap{x.nloop, x.ntmp, len(x.aux), len(x.pre), qcopy(x.rebound), qcopy(x.mutParam), qcopy(x.consumeP), qcopy(x.nonSet), x.needPnc}
 }
 
 func (x *qtrans) restore(s qsnap) {
 	x.nloop, x.ntmp, x.aux, x.pre = s.nloop, s.ntmp, x.aux[:s.naux], x.pre[:s.npre]
-	x.rebound, x.mutParam, x.consumeP, x.needPnc = s.rebound, s.mutParam, s.consP, s.needPnc
+	x.rebound, x.mutParam, x.consumeP, x.needPnc, x.nonSet = s.rebound, s.mutParam, s.consP, s.needPnc, s.nonSet
 	x.consume, x.lhsText = nil, nil
 }
 
@@ -623,8 +657,9 @@ func (x *qtrans) loop(l *qloop, en qenv, fc *qfctx) {
 	// pass 1: which outer variables does the body rebind?
 	snap := x.snapshot()
 	x.rebound = map[string]bool{}
+	x.nonSet = map[string]bool{}
 	x.loopBody(l, en, fc, nil, "LOOP_", false)
-	found := x.rebound
+	found, foundNonSet := x.rebound, x.nonSet
 	x.restore(snap)
 	if l.idx != "" {
 		for k := range found {
@@ -638,6 +673,17 @@ func (x *qtrans) loop(l *qloop, en qenv, fc *qfctx) {
 			ex, ok := n.(ast.Expr)
 			if !ok {
 				return true
+			}
+			if c, isCall := ex.(*ast.CallExpr); isCall && isIdent(c.Fun, "len") && len(c.Args) == 1 {
+				// `len(s)`: element assignments `s[i] = v` in the body keep it
+				if lv, ok := x.chainLv(c.Args[0], en); ok && lv.index == "" {
+					for k := range found {
+						if pathConflict(k, lv.pathKey()) && (k != lv.pathKey() || foundNonSet[k]) {
+							fail("`for %s`: %s is assigned in the body, the iteration count would change", l.header, norm(src(ex)))
+						}
+					}
+					return false
+				}
 			}
 			if lv, ok := x.chainLv(ex, en); ok && lv.index == "" {
 				for k := range found {
@@ -703,7 +749,9 @@ func (x *qtrans) loopBody(l *qloop, en qenv, fc *qfctx, carried []qvar, name str
 		lf.pnc = func() string { x.needPnc = true; return done }
 		lf.ret = func(qenv, []ast.Expr) string { return done }
 	}
+	x.inLoop++
 	bodyText := x.stmts(l.stmts, l.body, lf, func(qenv) string { return recur })
+	x.inLoop--
 	condText := ""
 	if l.cond != nil {
 		p0 := len(x.pre)
@@ -992,7 +1040,7 @@ func translateQ(u *qUnit, t *qTarget) (text string, reason string) {
 	key := t.Func
 	var x *qtrans
 	run := func(assume qshape) (out string) {
-		x = &qtrans{u: u, t: t, rebound: map[string]bool{}, mutParam: map[string]bool{}, consumeP: map[string]bool{}}
+		x = &qtrans{u: u, t: t, rebound: map[string]bool{}, mutParam: map[string]bool{}, consumeP: map[string]bool{}, nonSet: map[string]bool{}}
 		fd := funcs[t.Func]
 		if fd == nil {
 			fail("function %s not found in the package", t.Func)
@@ -1004,7 +1052,12 @@ func translateQ(u *qUnit, t *qTarget) (text string, reason string) {
 		tdecl := x.typeParams(fd)
 		en := qenv{}
 		params := ""
-		x.shape = qshape{lean: t.Lean, aborts: assume.aborts, recvMut: assume.recvMut, generic: tdecl != ""}
+		x.shape = qshape{lean: t.Lean, aborts: assume.aborts || t.Rec, recvMut: assume.recvMut, generic: tdecl != "", fuel: t.Rec || t.Fuel}
+		if x.shape.fuel {
+			// the depth argument (a pseudo-variable, so that loops and join points that mention it take it as a parameter)
+			en.vars = append(en.vars, qvar{goName: "depth_", lean: "depth_", typ: "#depth"})
+			params = " (depth_ : Nat)"
+		}
 		if fd.Recv != nil {
 			rt := goTypeOf(fd.Recv.List[0].Type)
 			ri := x.ti(rt)
@@ -1020,7 +1073,7 @@ func translateQ(u *qUnit, t *qTarget) (text string, reason string) {
 			x.recv = rn
 			en, x.recvLean = en.declare(rn, "*"+ri.Struct)
 			en.vars[len(en.vars)-1].param = true
-			params = " (" + x.recvLean + " : " + ri.Lean + ")"
+			params += " (" + x.recvLean + " : " + ri.Lean + ")"
 		}
 		ps, variadic := qParamsOf(fd.Type)
 		if variadic {
@@ -1045,6 +1098,20 @@ func translateQ(u *qUnit, t *qTarget) (text string, reason string) {
 		x.shape.params = ps
 		rn, rt := fieldNames(fd.Type.Results)
 		x.shape.res = rt
+		if t.Rec {
+			// the function at the smaller depth, reached through the dispatchers: `rec_`
+			x.recType = x.recvType
+			for _, p := range ps {
+				if p.kept {
+					x.recType += " → " + paren(x.ti(p.typ).Lean)
+				}
+			}
+			x.recType += " → " + x.resultType()
+			en.vars = append(en.vars, qvar{goName: "rec_", lean: "rec_", typ: "#rec"})
+			prov := x.shape
+			prov.ok = true
+			qShapes[key] = prov
+		}
 		body := en.push()
 		p0 := len(x.pre)
 		for i, n := range rn {
@@ -1083,6 +1150,12 @@ func translateQ(u *qUnit, t *qTarget) (text string, reason string) {
 		if out != "" {
 			out += "\n"
 		}
+		if t.Rec {
+			if fd.Recv == nil {
+				fail("a Rec target must be a method")
+			}
+			bodyText = "match depth_ with\n| 0 => none\n| depth_ + 1 =>\n  let rec_ : " + x.recType + " := " + t.Lean + " env depth_\n  " + indent(bodyText, 2)
+		}
 		return out + doc + "def " + t.Lean + tdecl + " (env : " + u.envType() + ")" + params + " :\n    " + x.resultType() + " :=\n  " + indent(bodyText, 2) + "\n"
 	}
 	defer func() {
@@ -1112,7 +1185,7 @@ func translateQ(u *qUnit, t *qTarget) (text string, reason string) {
 		}
 		text = run(assume)
 		now := x.shape
-		now.aborts = assume.aborts || x.needPnc
+		now.aborts = assume.aborts || x.needPnc || t.Rec
 		now.recvMut = assume.recvMut || x.mutParam[x.recvLean]
 		changed := now.aborts != assume.aborts || now.recvMut != assume.recvMut || len(assume.params) != len(now.params)
 		for i := range now.params {
